@@ -31,9 +31,17 @@ impl Vm {
                 self.run_gc();
             }
             if cycles == count {
+                #[cfg(feature = "verif")]
+                if crate::vm::verif::slice_end_gc() {
+                    crate::vm::verif::set_force_gc(true);
+                }
                 self.run_gc();
+                #[cfg(feature = "verif")]
+                crate::vm::verif::clear_force_gc();
                 return Ok(None);
             }
+            #[cfg(feature = "verif")]
+            crate::vm::verif::before_instruction(self);
             match self.run_one() {
                 Ok(true) => break,
                 Ok(false) => continue,
@@ -505,6 +513,8 @@ impl Vm {
         if (self.heap.used_size() as f64 / self.heap.capacity() as f64) > 0.75_f64 {
             self.heap.grow();
         }
+        #[cfg(feature = "verif")]
+        crate::vm::verif::after_gc(self);
     }
 
     /// Build Closure Environment
